@@ -59,7 +59,7 @@ MANIFEST = {
         "design_ref": "DESIGN.md 3/C03",
     }
 }
-PROPS = ["Nstd.Seq.Props", "Nstd.Seq.PropsSort", "Nstd.Seq.PropsAlias", "Nstd.Seq.PropsHeap", "Nstd.Seq.PropsLink", "Nstd.Seq.PropsSortG", "Nstd.Seq.PropsArr"]
+PROPS = ["Nstd.Seq.Props", "Nstd.Seq.PropsSort", "Nstd.Seq.PropsAlias", "Nstd.Seq.PropsHeap", "Nstd.Seq.PropsLink", "Nstd.Seq.PropsSortG", "Nstd.Seq.PropsArr", "Nstd.Seq.PropsArr2", "Nstd.Seq.PropsArr3"]
 LEAN_TARGETS = PROPS + ["drv_seq"]
 DRIVER = "drv_seq"
 
